@@ -213,13 +213,13 @@ class Update(_Lemmas, Contract):
 
     def _rest(cur, old):
         s = cur.self
-        return And(static_ok(s), occ_ok(s.occ, s), s.clustercount.len == s.interactvalue.len,
-                   I(s)['occupied_set'], I(s)['unoccupied_set'])
+        return {'tables': static_ok(s), 'occupation-valid': occ_ok(s.occ, s), 'len': s.clustercount.len == s.interactvalue.len,
+                'occupied_set': I(s)['occupied_set'], 'unoccupied_set': I(s)['unoccupied_set']}
 
     def inv_occ(cur, k, old):
         s = cur.self
-        return And(Update._rest(cur, old), I(s)['clustercount-is-the-sum-over-unoccupied-sites'],
-                   lambda: forall(0, s.siteinteract.len, lambda i: s.occ[i] == Update.after_first(old, i, k)))
+        return {**Update._rest(cur, old), 'count': I(s)['clustercount-is-the-sum-over-unoccupied-sites'],
+                'occupation-so-far': forall(0, s.siteinteract.len, lambda i: s.occ[i] == Update.after_first(old, i, k))}
 
     def inv_occ_row(cur, n, old):
         # only clustercount is written by the inner loop; everything else stays in the path condition
@@ -231,8 +231,8 @@ class Update(_Lemmas, Contract):
 
     def inv_unocc(cur, k, old):
         s = cur.self
-        return And(Update._rest(cur, old), I(s)['clustercount-is-the-sum-over-unoccupied-sites'],
-                   lambda: forall(0, s.siteinteract.len, lambda i: s.occ[i] == Update.after_second(old, i, k)))
+        return {**Update._rest(cur, old), 'count': I(s)['clustercount-is-the-sum-over-unoccupied-sites'],
+                'occupation-so-far': forall(0, s.siteinteract.len, lambda i: s.occ[i] == Update.after_second(old, i, k))}
 
     def inv_unocc_row(cur, n, old):
         s = cur.self; i = cur.v['i']
